@@ -8,7 +8,7 @@ SWAP = {"Lt": "Gt", "Gt": "Lt", "Le": "Ge", "Ge": "Le", "Eq": "Eq", "Ne": "Ne"}
 def strip_casts(ex):
     """removes integer casts and reference wrappers (descriptor level)"""
     while True:
-        if ex[0] == "cast" and ex[3] in ("IntToInt",):
+        if ex[0] == "cast" and (ex[3] in ("IntToInt",) or ex[3].startswith("PointerCoercion")):
             ex = ex[2]
         elif ex[0] in ("ref", "deref"):
             ex = ex[1]
